@@ -9,6 +9,7 @@ import (
 	"bufio"
 	"encoding/json"
 	"fmt"
+	"io"
 	"os"
 	"os/exec"
 	"syscall"
@@ -27,7 +28,59 @@ type child struct {
 const answerDeadline = 60 * time.Second
 
 func startChild(dir string, flushMs int) (*child, bool, string, error) {
-	cmd := exec.Command(os.Args[0], "serve", dir, fmt.Sprint(flushMs))
+	return startChildLim(dir, flushMs, -1)
+}
+
+// crashStart: the server is started with the file size limit k (see crashAtFileSize): the first saver of the start-up
+// sequence that writes more than k bytes to a file dies inside the write. Returns how the start ended:
+// "died:<signal>", "refused" (Init failed before any such write) or "started" (no write reached the limit; the
+// process is then killed, which is a session without steps ended by SIGKILL).
+func crashStart(dir string, k int64) (string, error) {
+	cmd := exec.Command(os.Args[0], "serve", dir, "600000", fmt.Sprint(k))
+	stdin, err := cmd.StdinPipe()
+	if err != nil {
+		return "", err
+	}
+	stdout, err := cmd.StdoutPipe()
+	if err != nil {
+		return "", err
+	}
+	if err := cmd.Start(); err != nil {
+		return "", err
+	}
+	c := &child{cmd: cmd, in: json.NewEncoder(stdin), out: bufio.NewReader(stdout), w: stdin}
+	a, rerr := c.read()
+	if rerr == nil && a.Started {
+		c.kill()
+		return "started", nil
+	}
+	if rerr == nil {
+		cmd.Wait()
+		return "refused", nil
+	}
+	if rerr != io.EOF {
+		c.kill()
+		return "", fmt.Errorf("crash injection at start: %v", rerr)
+	}
+	return waitDeath(cmd), nil
+}
+
+func waitDeath(cmd *exec.Cmd) string {
+	err := cmd.Wait()
+	if ee, ok := err.(*exec.ExitError); ok {
+		if ws, ok := ee.Sys().(syscall.WaitStatus); ok && ws.Signaled() {
+			if ws.Signal() == syscall.SIGXFSZ {
+				return "died:SIGXFSZ"
+			}
+			return fmt.Sprintf("died:signal-%d", int(ws.Signal()))
+		}
+		return fmt.Sprintf("exited:%d", ee.ExitCode())
+	}
+	return "exited:0"
+}
+
+func startChildLim(dir string, flushMs int, lim int64) (*child, bool, string, error) {
+	cmd := exec.Command(os.Args[0], "serve", dir, fmt.Sprint(flushMs), fmt.Sprint(lim))
 	stdin, err := cmd.StdinPipe()
 	if err != nil {
 		return nil, false, "", err
@@ -109,6 +162,32 @@ func (c *child) stop() error {
 	}
 }
 
+// crashStop: the shutdown sequence starts under the file size limit k: its first saver that writes more than k bytes to
+// a file dies inside the write. Returns "died:<signal>", or "stopped" when the whole sequence ran (no write reached k).
+func (c *child) crashStop(k int64) (string, error) {
+	if err := c.in.Encode(Cmd{Op: "stop", Lim: &k}); err != nil {
+		c.kill()
+		return "", err
+	}
+	_, rerr := c.read()
+	if rerr != nil && rerr != io.EOF {
+		c.kill()
+		return "", fmt.Errorf("crash injection at stop: %v", rerr)
+	}
+	done := make(chan string, 1)
+	go func() { done <- waitDeath(c.cmd) }()
+	select {
+	case how := <-done:
+		if rerr == nil {
+			return "stopped", nil
+		}
+		return how, nil
+	case <-time.After(answerDeadline):
+		c.kill()
+		return "", fmt.Errorf("server process neither died nor exited after a stop under a file size limit")
+	}
+}
+
 // kill: SIGKILL, nothing gets a chance to run
 func (c *child) kill() {
 	c.cmd.Process.Signal(syscall.SIGKILL)
@@ -119,10 +198,6 @@ func main() {
 	if len(os.Args) > 1 && os.Args[1] == "serve" {
 		Quiet()
 		serveMain(os.Args[2:])
-		return
-	}
-	if false {
-		_ = 0
 		return
 	}
 	Main("C07", "C07K", run)
